@@ -93,7 +93,7 @@ func init() {
 		ID: "C15",
 		Rule: "positive: 2 000 (quick) / 200 000 (thorough) cases, each a random 20-byte hash and a real compressed key (HASH160 computed independently), both networks: address = independent Base58Check; decode, validate, every P2PKH constructor (from hash, hash hex, key bytes, key hex, EC key, address of either network, PayToAddress, AddP2PKHOutputFrom*, ChangeToAddress) must give the canonical 25-byte script, PublicKeyHash/Addresses must give the hash and main-net address back. " +
 			"negative: for 200 / 5 000 of the addresses (alternating networks) EVERY single-character substitution (57 x len), insertion (58 x (len+1)), deletion and adjacent transposition, plus wrong versions (0x05, 0xc4, 3 random), payload lengths 19/21, non-alphabet characters (0 O I l space + / NUL, bytes >= 0x80), 1..3 leading '1's added, leading '1' removed, empty string, surrounding blanks; " +
-			"each string goes to ValidateAddress, NewAddressFromString, NewP2PKHFromAddress, Tx.PayToAddress and Tx.ChangeToAddress; library accepts => the independent Base58Check accepts (25 bytes, version 0x00/0x6f, checksum) and yields the same hash. " +
+			"each string goes to ValidateAddress, NewAddressFromString, NewP2PKHFromAddress, Tx.PayToAddress, Tx.AddP2PKHOutputFromAddress and Tx.ChangeToAddress; library accepts => the independent Base58Check accepts (25 bytes, version 0x00/0x6f, checksum) and yields the same hash. " +
 			"distinct_nontrivial = distinct (hash, network) pairs judged positively + distinct strings that differ from the address they were derived from.",
 		Assum: []string{
 			"reference Base58Check in /verif/internal/refaddr (math/big + crypto/sha256), HASH160 = RIPEMD160(SHA256) from the standard library and x/crypto; checked against three published address vectors at the start of each run",
@@ -353,6 +353,14 @@ func c15JudgePos(c *mon.Ctx, in *c15Pos) {
 				checkScript("Tx.PayToAddress:"+net, tx.Outputs[0].LockingScript, nil)
 			}
 		}
+		atx := bt.NewTx()
+		if c.Try("bt.(*Tx).AddP2PKHOutputFromAddress", func() { err = atx.AddP2PKHOutputFromAddress(want, 77) }) {
+			if err != nil || len(atx.Outputs) != 1 || atx.Outputs[0].Satoshis != 77 {
+				viol("C15:constructor-not-canonical:Tx.AddP2PKHOutputFromAddress:"+net, "AddP2PKHOutputFromAddress(%s, 77) = %v, %d outputs", want, err, len(atx.Outputs))
+			} else {
+				checkScript("Tx.AddP2PKHOutputFromAddress:"+net, atx.Outputs[0].LockingScript, nil)
+			}
+		}
 		ftx := c15FundedTx()
 		if c.Try("bt.(*Tx).ChangeToAddress", func() { err = ftx.ChangeToAddress(want, c15FQ) }) {
 			if err != nil || len(ftx.Outputs) != 1 {
@@ -391,6 +399,14 @@ func c15JudgePos(c *mon.Ctx, in *c15Pos) {
 		if c.Try("bscript.NewP2PKHFromPubKeyEC", func() { s, err = bscript.NewP2PKHFromPubKeyEC(pub) }) {
 			checkScript("NewP2PKHFromPubKeyEC", s, err)
 		}
+		stx := bt.NewTx()
+		if c.Try("bt.(*Tx).AddP2PKHOutputFromPubKeyStr", func() { err = stx.AddP2PKHOutputFromPubKeyStr(hex.EncodeToString(key), 1) }) {
+			if err != nil || len(stx.Outputs) != 1 {
+				viol("C15:constructor-not-canonical:Tx.AddP2PKHOutputFromPubKeyStr", "error %v, %d outputs", err, len(stx.Outputs))
+			} else {
+				checkScript("Tx.AddP2PKHOutputFromPubKeyStr", stx.Outputs[0].LockingScript, nil)
+			}
+		}
 		tx := bt.NewTx()
 		if c.Try("bt.(*Tx).AddP2PKHOutputFromPubKeyBytes", func() { err = tx.AddP2PKHOutputFromPubKeyBytes(key, 1) }) {
 			if err != nil || len(tx.Outputs) != 1 {
@@ -398,6 +414,14 @@ func c15JudgePos(c *mon.Ctx, in *c15Pos) {
 			} else {
 				checkScript("Tx.AddP2PKHOutputFromPubKeyBytes", tx.Outputs[0].LockingScript, nil)
 			}
+		}
+	}
+	ptx := bt.NewTx()
+	if c.Try("bt.(*Tx).AddP2PKHOutputFromScript", func() { err = ptx.AddP2PKHOutputFromScript(bscript.NewFromBytes(append([]byte{}, canon...)), 5) }) {
+		if err != nil || len(ptx.Outputs) != 1 {
+			viol("C15:constructor-not-canonical:Tx.AddP2PKHOutputFromScript", "the canonical P2PKH script is refused: %v, %d outputs", err, len(ptx.Outputs))
+		} else {
+			checkScript("Tx.AddP2PKHOutputFromScript", ptx.Outputs[0].LockingScript, nil)
 		}
 	}
 	if !bad {
@@ -516,6 +540,14 @@ func c15JudgeStr(c *mon.Ctx, in *c15Str) {
 			b = *ftx.Outputs[0].LockingScript
 		}
 		judge("Tx.ChangeToAddress", err == nil, "", b)
+	}
+	atx := bt.NewTx()
+	if c.Try("bt.(*Tx).AddP2PKHOutputFromAddress", func() { err = atx.AddP2PKHOutputFromAddress(s, 1000) }) {
+		var b []byte
+		if err == nil && len(atx.Outputs) == 1 {
+			b = *atx.Outputs[0].LockingScript
+		}
+		judge("Tx.AddP2PKHOutputFromAddress", err == nil, "", b)
 	}
 	switch {
 	case accepted == 0 && !refOK:
